@@ -4,6 +4,7 @@ CONSTANTS
   ENT = 1
   N = 2
   WT = {1, 2}
+  SetTypes = {1, 2}
   OT = {7, 8}
   KS = {1, 2, 4}
   AddCs = {0, 1, 9}
